@@ -27,8 +27,15 @@ released handler j (`release j` = "its slow shutdown is ready to finish").
 the mutex guard is released, the handle stays in the slot, the run task is NOT aborted.
 A label that is not enabled leaves the state unchanged.
 
-Not modelled: a panicking handler task (shutdown then returns `Err(JoinError)`), and dropping
-every `Router` clone (aborts the run task; no caller can exist then).
+A panicking accept task (`panic j`: handler j's `accept`/`on_accepting` future panics while the
+loop runs): the `join_set.join_next()` arm logs the panic and `break`s to the SAME teardown
+(R1–R3); the run task itself does not panic, so every `shutdown` call returns `Ok` — after the
+teardown.  (The doc comment's "propagate that panic into the result" describes a panic of the run
+task itself, which this code path does not produce.)  Whether that arm still `break`s is
+regenerated from the source (`Generated.C41.panicArmBreaks`); if it unwound instead, the run task
+would end without teardown — modelled as `RunPc.aborted`, see `Unrepaired.lean`.
+
+Not modelled: dropping every `Router` clone (aborts the run task; no caller can exist then).
 -/
 import IrohModel.Generated.C41
 
@@ -73,6 +80,8 @@ inductive Label where
   | release (j : Nat)
   /-- environment: the endpoint is closed from outside the router -/
   | extClose
+  /-- environment: an accept task of handler j panics -/
+  | panic (j : Nat)
   | runBreak
   | handler (j : Nat)
   | runClose
@@ -90,6 +99,8 @@ structure State where
   cancelled : Bool
   /-- `Endpoint::is_closed()` -/
   epClosed : Bool
+  /-- a panicked accept task is waiting in the join set -/
+  taskPanicked : Bool
   released : Nat → Bool
   /-- handler j's `shutdown` future has completed -/
   hdone : Nat → Bool
@@ -100,7 +111,7 @@ structure State where
   callers : Nat → CPc
 
 def init (h : Nat) : State :=
-  { h, run := .running, cancelled := false, epClosed := false, released := fun _ => false,
+  { h, run := .running, cancelled := false, epClosed := false, taskPanicked := false, released := fun _ => false,
     hdone := fun _ => false, slot := true, lockHolder := none, callers := fun _ => .idle }
 
 /-- `∀ j < h, hdone j`, executable. -/
@@ -137,8 +148,13 @@ def step (s : State) : Label → State
     | _ => s
   | .release j => { s with released := upd s.released j true }
   | .extClose => { s with epClosed := true }
+  | .panic _ =>
+    -- `if outer.is_panic() { error!(..); break; }` — the flag is regenerated from the source
+    if Generated.C41.panicArmBreaks = 1 then { s with taskPanicked := true }
+    else if s.run = .running then { s with run := .aborted } else s
   | .runBreak =>
-    if s.run = .running ∧ (s.cancelled = true ∨ s.epClosed = true) then { s with run := .handlers } else s
+    if s.run = .running ∧ (s.cancelled = true ∨ s.epClosed = true ∨ s.taskPanicked = true) then
+      { s with run := .handlers } else s
   | .handler j =>
     if s.run = .handlers ∧ j < s.h ∧ s.released j = true then { s with hdone := upd s.hdone j true } else s
   | .runClose =>
